@@ -134,3 +134,22 @@ package keeper
 //@ ensures [a_fresh_checkpoint_is_kept_below_5_percent] err == nil && old(has(bridge.BridgeValset)) && !ret(LastSavedValidatorSetStale, 0) && called(PowerDiff) && ret(PowerDiff, 0) < 50000 ==> !called(SetBridgeValidatorParams) && !changed && nothing_written()
 //@ ensures [an_unchanged_fresh_set_is_kept] err == nil && old(has(bridge.BridgeValset)) && !ret(LastSavedValidatorSetStale, 0) && !called(PowerDiff) ==> !called(SetBridgeValidatorParams) && !changed && nothing_written()
 //@ ensures [the_checkpointed_set_is_the_current_one] err == nil && called(SetBridgeValidatorParams) ==> arg(SetBridgeValidatorParams, bridgeValidatorSet) == ret(GetCurrentValidatorSetEVMCompatible, 0) && has(bridge.BridgeValset)
+
+// ---- signatures land only in the sender's slot (C16, C17) ----
+// evm(op): the EVM address registered for operator op; prevset(ts): the validator set of the checkpoint before the
+// one with timestamp ts; sigs(ts): the signature slots stored for the checkpoint with timestamp ts.
+
+//@ define evm(op) = bridge.OperatorToEVMAddressMap[op].EVMAddress
+//@ define prevts(ts) = bridge.ValidatorCheckpointIdxMap[bridge.ValsetTimestampToIdxMap[ts].Index - 1].Timestamp
+//@ define prevset(ts) = bridge.BridgeValsetByTimestampMap[prevts(ts)].BridgeValidatorSet
+//@ define sigs(ts) = bridge.BridgeValsetSignaturesMap[ts].Signatures
+
+//@ func (k Keeper).SetBridgeValsetSignature(ctx, operatorAddress, timestamp, signature) (err)
+//@ requires [previous_set_members_present] forall t int :: forall j in [0, len(bridge.BridgeValsetByTimestampMap[t].BridgeValidatorSet)) :: bridge.BridgeValsetByTimestampMap[t].BridgeValidatorSet[j] != nil
+//@ modifies bridge.BridgeValsetSignaturesMap, A_*
+//@ ensures [only_this_checkpoints_slots_are_written] forall t int :: t != timestamp ==> (has(bridge.BridgeValsetSignaturesMap, t) <==> old(has(bridge.BridgeValsetSignaturesMap, t))) && bridge.BridgeValsetSignaturesMap[t] == old(bridge.BridgeValsetSignaturesMap[t])
+//@ ensures [slot_count_unchanged] len(sigs(timestamp)) == old(len(sigs(timestamp)))
+//@ ensures [only_the_senders_slots_change] err == nil ==> forall j in [0, len(sigs(timestamp))) :: bytes(sigs(timestamp)[j]) != old(bytes(sigs(timestamp)[j])) ==> j < len(prevset(timestamp)) && bytes(prevset(timestamp)[j].EthereumAddress) == bytes(evm(operatorAddress))
+//@ ensures [unregistered_operator_or_unknown_checkpoint_rejected] !has(bridge.OperatorToEVMAddressMap, operatorAddress) || !old(has(bridge.BridgeValsetSignaturesMap, timestamp)) ==> err != nil && nothing_written()
+//@ loop 0 "for i, val := range previousValset.BridgeValidatorSet"
+//@ loop 0 invariant [slots_changed_so_far_belong_to_the_sender] len(valsetSigs.Signatures) == old(len(sigs(timestamp))) && forall j in [0, len(valsetSigs.Signatures)) :: bytes(valsetSigs.Signatures[j]) != old(bytes(sigs(timestamp)[j])) ==> j < i && bytes(previousValset.BridgeValidatorSet[j].EthereumAddress) == bytes(evm(operatorAddress))
